@@ -7,6 +7,7 @@ package http
 // ServeMux that mirrors Serve()'s three routes, with httptest recorders.
 
 import (
+	"sync"
 	"bytes"
 	"context"
 	"errors"
@@ -36,8 +37,21 @@ import (
 	"github.com/jech/storrent/zzverif/vh"
 )
 
+var (
+	serveOnce sync.Once
+	serveErr  error
+)
+
+// newMux returns the multiplexer the real server answers from: Serve() registers
+// its routes on http.DefaultServeMux (and so does anything else in the binary
+// that registers handlers there), so that is what a request reaches.  Serve is
+// called once, on a loopback port; should listening be impossible the same
+// three routes are registered on a private multiplexer.
 func newMux() *http.ServeMux {
-	// the same three routes as Serve()
+	serveOnce.Do(func() { serveErr = Serve("127.0.0.1:0") })
+	if serveErr == nil {
+		return http.DefaultServeMux
+	}
 	mux := http.NewServeMux()
 	mux.HandleFunc("/{$}", rootHandler)
 	mux.HandleFunc("/{file}", torRootHandler)
@@ -595,7 +609,9 @@ func (h *front) locality() {
 		{"1.2.3.4.5:80", true}, {"0x7f.1:80", true}, {"localhost%00.evil.com:80", true}, {" localhost:80", true}, {"localhost :80", true}}
 	targets := []string{"/", "/?q=peers&hash=" + hs, "/?q=set&upload=1&idle=2", "/?q=set-torrent&hash=" + hs + "&dht-mode=normal&use-trackers=1&use-webseeds=1", "/?q=delete&hash=" + hs,
 		"/?q=add&url=magnet:?xt=urn:btih:" + other, "/?q=unknown", "/" + hs, "/" + hs + ".torrent", "/" + hs + ".m3u", "/" + hs + "/", "/" + hs + "/d/", "/" + hs + "/d/a", "/" + hs + "/d/?playlist",
-		"/" + other + "/", "/garbage", "/" + hs + ".zip", "/favicon.ico"}
+		"/" + other + "/", "/garbage", "/" + hs + ".zip", "/favicon.ico",
+		// routes that debugging packages register on the default multiplexer when they are linked in
+		"/debug/pprof/", "/debug/pprof/cmdline", "/debug/pprof/goroutine?debug=1", "/debug/pprof/heap", "/debug/vars", "/debug/requests", "/debug/events"}
 	methods := []string{"GET", "HEAD", "POST", "PUT", "DELETE", "OPTIONS"}
 	n := 0
 	for _, ho := range hosts {
